@@ -366,6 +366,7 @@ func runC06(r *harness.Run) {
 	c06GoAPI(r, bodies)
 	c06Suspended(r)
 	runPinned(r, "C06")
+	reentrantFamily(r, "C06")
 	pinnedGoAPI5(r, "C06")
 }
 
